@@ -263,12 +263,20 @@ fn seeding_accessors(st: &mut Stats) {
     check(st, "HyperDual64 derivative1", h(HyperDual64::from_re(x).derivative1()), vec![x, 1.0, 0.0, 0.0]);
     check(st, "HyperDual64 derivative2", h(HyperDual64::from_re(x).derivative2()), vec![x, 0.0, 1.0, 0.0]);
     check(st, "HyperDual64 derivative1 derivative2", h(HyperDual64::from_re(x).derivative1().derivative2()), vec![x, 1.0, 1.0, 0.0]);
+    check(st, "HyperDual64 derivative2 derivative1", h(HyperDual64::from_re(x).derivative2().derivative1()), vec![x, 1.0, 1.0, 0.0]);
+    // an accessor sets its own part and leaves the others alone
+    check(st, "HyperDual64 new(..).derivative1()", h(HyperDual64::new(x, 3.0, 4.0, 5.0).derivative1()), vec![x, 1.0, 4.0, 5.0]);
+    check(st, "HyperDual64 new(..).derivative2()", h(HyperDual64::new(x, 3.0, 4.0, 5.0).derivative2()), vec![x, 3.0, 1.0, 5.0]);
     check(st, "HyperDual64::new", h(HyperDual64::new(x, 3.0, 4.0, 5.0)), vec![x, 3.0, 4.0, 5.0]);
     let hh = |d: HyperHyperDual64| vec![d.re, d.eps1, d.eps2, d.eps3, d.eps1eps2, d.eps1eps3, d.eps2eps3, d.eps1eps2eps3];
     check(st, "HyperHyperDual64 derivative1", hh(HyperHyperDual64::from_re(x).derivative1()), vec![x, 1.0, 0.0, 0.0, 0.0, 0.0, 0.0, 0.0]);
     check(st, "HyperHyperDual64 derivative2", hh(HyperHyperDual64::from_re(x).derivative2()), vec![x, 0.0, 1.0, 0.0, 0.0, 0.0, 0.0, 0.0]);
     check(st, "HyperHyperDual64 derivative3", hh(HyperHyperDual64::from_re(x).derivative3()), vec![x, 0.0, 0.0, 1.0, 0.0, 0.0, 0.0, 0.0]);
     check(st, "HyperHyperDual64 derivative1 derivative3", hh(HyperHyperDual64::from_re(x).derivative1().derivative3()), vec![x, 1.0, 0.0, 1.0, 0.0, 0.0, 0.0, 0.0]);
+    check(st, "HyperHyperDual64 derivative3 derivative2 derivative1", hh(HyperHyperDual64::from_re(x).derivative3().derivative2().derivative1()), vec![x, 1.0, 1.0, 1.0, 0.0, 0.0, 0.0, 0.0]);
+    check(st, "HyperHyperDual64 new(..).derivative2()", hh(HyperHyperDual64::new(x, 1.5, 2.0, 3.0, 4.0, 5.0, 6.0, 7.0).derivative2()), vec![x, 1.5, 1.0, 3.0, 4.0, 5.0, 6.0, 7.0]);
+    check(st, "Dual2_64 new(..).derivative()", { let d = Dual2_64::new(x, 3.0, 4.0).derivative(); vec![d.re, d.v1, d.v2] }, vec![x, 1.0, 4.0]);
+    check(st, "Dual3_64 new(..).derivative()", { let d = Dual3_64::new(x, 3.0, 4.0, 5.0).derivative(); vec![d.re, d.v1, d.v2, d.v3] }, vec![x, 1.0, 4.0, 5.0]);
     check(st, "HyperHyperDual64::new", hh(HyperHyperDual64::new(x, 1.0, 2.0, 3.0, 4.0, 5.0, 6.0, 7.0)), vec![x, 1.0, 2.0, 3.0, 4.0, 5.0, 6.0, 7.0]);
     // a function of two variables through the accessors: f = x y^2, x on direction 1, y on 2 (and 3)
     let (xv, yv) = (1.5, -0.75);
